@@ -6,7 +6,7 @@ LEVEL = 'proof'
 TRUSTED = ['adjoint-state (Lagrange multiplier) theorem: if the multipliers solve the transposed linearised constraint system, the stated '
            'combination of partial derivatives is the total derivative (DESIGN.md s5); the partial derivatives themselves are computed '
            'by symbolic differentiation of the spec-side Hermite pieces and jump conditions']
-ASSUMPTIONS = ['a built spline: cached time powers, point differences and block factors satisfy the relations C01/C02 prove for update()',
+ASSUMPTIONS = ['a built spline: every clause of the precondition is, text for text, a postcondition of update() as proved by C01/C02 (meta-check precondition_established_by_update); that nothing between update() and the call changes the object is the caller\'s frame (const queries only: C10)',
                'well-scaled domain: the pivots of the block factorisation are invertible (DESIGN.md s4.3)']
 UNDECIDED_CLAUSES = []
 CLASSES = ['QuinticSplineND', 'SepticSplineND']
@@ -40,6 +40,12 @@ def tasks(tier):
             if not sel or re.search(sel, lab):
                 T.append(Task('CubicSplineND', 'solveWithCachedLU', 1, {'DIM': D}, label=lab, gen_options={'focus': d}))
     return T
+
+
+def extra_checks(tier, workdir):
+    res = run_meta_jobs([('common', 'precondition_chain', ('C05', cls, 'propagateGradInternal', 6)) for cls in ('CubicSplineND', 'QuinticSplineND', 'SepticSplineND')], workers=3)
+    return [{'name': r['oid'], 'oid': r['oid'], 'obligations': 1, 'discharged': 1 if r['status'] == 'ok' else 0, 'status': r['status'], 'detail': r.get('detail', ''),
+             'back_end': 'generator (clause texts of the verified contract instances)', 'replay': '', 'found': False} for r in res]
 
 
 def replay(result, workdir, seed):
